@@ -430,7 +430,10 @@ class Ctx:
                 if c.sort() == z3.IntSort():
                     b = self.ibounds.get(n) or [None, None]
                     if b[0] is not None and b[1] is not None and b[1] - b[0] > 6:
-                        v = z3.IntVal(rng.randint(b[0], b[1]))          # bounded input: anywhere in its range
+                        if b[1] - b[0] > 1000 and rng.random() < 0.7:
+                            v = z3.IntVal(b[0] + rng.randint(0, 4))     # huge range: mostly small values near the lower end
+                        else:
+                            v = z3.IntVal(rng.randint(b[0], b[1]))      # bounded input: anywhere in its range
                     else:
                         v = z3.IntVal(rng.randint(-3, 3))
                 elif c.sort() == z3.RealSort():
